@@ -98,6 +98,7 @@ type Runner struct {
 	TVAgree        int
 	ReplayOverride func(hr *HarnessResult) string
 	AfterInject    func()
+	Undecided      []string // thorough tier: harnesses undecided at both bounds (outside what the run explored)
 	Filter         *regexp.Regexp
 	Stubs          []string
 }
@@ -176,6 +177,9 @@ func cmdRun(args []string) int {
 			spec.Extra(r)
 		}
 	}
+	if n := len(r.Results); len(r.Undecided)*10 > n && len(r.Undecided) > 3 {
+		r.inconsistent(fmt.Sprintf("%d of %d harnesses undecided at both bounds: the thorough run explored too little", len(r.Undecided), n))
+	}
 	r.writeEvidence()
 	if len(r.Viol) > 0 {
 		return 1
@@ -185,12 +189,12 @@ func cmdRun(args []string) int {
 	}
 	nred := 0
 	for _, hr := range r.Results {
-		if hr.Reduced != "" {
+		if hr.Reduced != "" && hr.Status == "ok" {
 			nred++
 			fmt.Printf("REDUCED-BOUND property=%s harness=%s %s\n", spec.ID, hr.Name, hr.Reduced)
 		}
 	}
-	fmt.Printf("OK property=%s tier=%s programs=%d harnesses=%d reduced_bound=%d wall=%.1fs\n", spec.ID, t, r.Programs, len(r.Results), nred, time.Since(r.Start).Seconds())
+	fmt.Printf("OK property=%s tier=%s programs=%d harnesses=%d reduced_bound=%d undecided=%d wall=%.1fs\n", spec.ID, t, r.Programs, len(r.Results), nred, len(r.Undecided), time.Since(r.Start).Seconds())
 	return 0
 }
 
@@ -467,6 +471,14 @@ func (r *Runner) classify(res []HarnessResult) {
 				r.Extra["undecided_known_finding_twins"] = append(asStrings(r.Extra["undecided_known_finding_twins"]), hr.Name+": "+hr.Detail)
 				continue
 			}
+			if r.Tier == "thorough" && hr.Reduced != "" {
+				// thorough tier only: undecided at the deeper bounds AND at the quick bounds (a harness kind or a
+				// VERIF_SEED-chosen deep shape that the quick tier does not contain). It is outside what this run
+				// explored; it is listed, never counted as held.
+				r.Undecided = append(r.Undecided, hr.Name+": "+hr.Detail)
+				fmt.Printf("UNDECIDED property=%s harness=%s %s (also at the quick bounds)\n", r.Spec.ID, hr.Name, hr.Detail)
+				continue
+			}
 			r.inconsistent(fmt.Sprintf("harness %s inconclusive: %s", hr.Name, hr.Detail))
 		}
 	}
@@ -579,6 +591,8 @@ func (r *Runner) writeEvidence() {
 			reduced = append(reduced, map[string]string{"harness": hr.Name, "reduced_bound": hr.Reduced, "status": hr.Status})
 		}
 	}
+	cov["undecided_harnesses"] = r.Undecided
+	cov["undecided_harnesses_n"] = len(r.Undecided)
 	cov["reduced_bound_harnesses_n"] = len(reduced)
 	if len(reduced) > 40 {
 		reduced = reduced[:40]
